@@ -85,6 +85,19 @@ let site_str (s : Faults.fsite) = match s with
   | Faults.SDrop (n, port, x) -> Printf.sprintf "drop:%d:%s:%d" (int_of_n n) (if port then "port" else "generic") (int_of_n x)
   | Faults.SFlip n -> Printf.sprintf "flip:%d" (int_of_n n)
 
+let coq_expr (e : Syntax.expr) : string = match e with
+  | Syntax.EInt (i, v) -> Printf.sprintf "(EInt %d %d)" (int_of_n i) (int_of_n v)
+  | Syntax.EBit (i, b) -> Printf.sprintf "(EBit %d %b)" (int_of_n i) b
+  | Syntax.ENam (Syntax.NId o) -> Printf.sprintf "(ENam (NId (Occ %d %d)))" (int_of_n o.Syntax.o_nid) (int_of_n o.Syntax.o_id)
+  | _ -> "?"
+let site_coq (s : Faults.fsite) = match s with
+  | Faults.SZap n -> Printf.sprintf "SZap %d" (int_of_n n)
+  | Faults.SDup n -> Printf.sprintf "SDup %d" (int_of_n n)
+  | Faults.SRoot (n, e) -> Printf.sprintf "SRoot %d %s" (int_of_n n) (coq_expr e)
+  | Faults.SArg (n, k, e) -> Printf.sprintf "SArg %d %d%%nat %s" (int_of_n n) (int_of_nat k) (coq_expr e)
+  | Faults.SDrop (n, port, x) -> Printf.sprintf "SDrop %d %b %d" (int_of_n n) port (int_of_n x)
+  | Faults.SFlip n -> Printf.sprintf "SFlip %d" (int_of_n n)
+
 let rewrite_str (r : Rewrites.rewrite) = match r with
   | Rewrites.RSwap s -> Printf.sprintf "swap:%d" (int_of_n s)
   | Rewrites.RNamed s -> Printf.sprintf "named:%d" (int_of_n s)
@@ -233,6 +246,7 @@ let handle_case pid tag nrew depth nfaults rseed fwant choices =
       let (en, ec) = Faults.expect f st p in
       Printf.printf "M %s fault %s %s\n" id (fclass_name f) (site_str st);
       Printf.printf "M %s site_kind %s\n" id (site_kind p st);
+      Printf.printf "M %s site_coq %s\n" id (site_coq st);
       Printf.printf "M %s expect %d %s\n" id (int_of_n en) (cls_name ec);
       (match Sem.blame_program q with
        | Some (bn, bc) -> Printf.printf "M %s blame %d %s\n" id (int_of_n bn) (cls_name bc)
